@@ -73,8 +73,16 @@ type Case struct {
 	Spare    int     `json:"spare"` // spare capacity of the caller's option slice
 	CPrio    bool    `json:"cprio,omitempty"`
 	Parallel bool    `json:"parallel"`
-	Gate     bool    `json:"gate,omitempty"` // parallel external-TOC conversions: park the first layer that is about to store its TOC until another layer has been converted completely
-	Ops      []Layer `json:"ops"`            // the layers (called ops so that the driver shrinks the list)
+	Gate     bool    `json:"gate,omitempty"`  // parallel external-TOC conversions: park the first layer that is about to store its TOC until another layer has been converted completely
+	Fins     []Fin   `json:"fins,omitempty"`  // external-TOC converters: the finalize calls (none given = one call after all layers with a good reference)
+	NoFin    bool    `json:"nofin,omitempty"` // finalize is never called
+	Ops      []Layer `json:"ops"`             // the layers (called ops so that the driver shrinks the list)
+}
+
+// Fin is one call of the converter's finalize callback, made when the first Upto layers have been converted.
+type Fin struct {
+	Upto int  `json:"upto"`
+	OK   bool `json:"ok"` // target reference parses (otherwise finalize must return an error)
 }
 
 // ---------------------------------------------------------------------------------------------
@@ -307,10 +315,19 @@ type MEntry struct {
 	Size  int64
 }
 
+type FinObs struct {
+	Upto    int
+	OK      bool // reference given was a good one
+	Err     bool // finalize returned an error
+	Entries []MEntry
+}
+
 type Result struct {
 	Layers   []LayerObs
-	Manifest []MEntry
+	Manifest []MEntry // entries of the last successful finalize call
 	HasMfst  bool
+	LastUpto int      // number of layers converted before that call
+	Fins     []FinObs // every finalize call, in order
 	Problems []string
 	Leftover int  // interrupted conversions that really left data under the writer ref
 	Parked   bool // the gate really held a TOC writer back until another layer was done
@@ -817,27 +834,122 @@ func exec(c Case) Result {
 		res.Layers[i].Leftover = refBytes(i)
 	}
 	outs := make([]out, n)
-	if c.Parallel {
-		var wg sync.WaitGroup
-		start := make(chan struct{})
-		for i := range c.Ops {
-			wg.Add(1)
-			go func(i int) {
-				defer wg.Done()
-				<-start
-				outs[i] = run(i)
-			}(i)
+	runSeg := func(lo, hi int) {
+		if lo >= hi {
+			return
 		}
-		close(start)
-		wg.Wait()
-		ws.mu.Lock()
-		res.Parked = ws.Parked
-		ws.mu.Unlock()
-	} else {
-		for i := range c.Ops {
-			outs[i] = run(i)
+		if c.Parallel && hi-lo > 1 {
+			var wg sync.WaitGroup
+			start := make(chan struct{})
+			for i := lo; i < hi; i++ {
+				wg.Add(1)
+				go func(i int) {
+					defer wg.Done()
+					<-start
+					outs[i] = run(i)
+				}(i)
+			}
+			close(start)
+			wg.Wait()
+			ws.mu.Lock()
+			res.Parked = res.Parked || ws.Parked
+			ws.mu.Unlock()
+		} else {
+			for i := lo; i < hi; i++ {
+				outs[i] = run(i)
+			}
 		}
 	}
+	sortEntries := func(es []MEntry) {
+		sort.Slice(es, func(i, j int) bool {
+			a, b := es[i], es[j]
+			if a.TOC != b.TOC {
+				return a.TOC < b.TOC
+			}
+			return a.Layer < b.Layer
+		})
+	}
+	// one finalize call; a good reference differs from call to call (same converted image pushed under several names)
+	nfin := 0
+	doFinalize := func(f Fin) FinObs {
+		nfin++
+		fo := FinObs{Upto: f.Upto, OK: f.OK}
+		ref := fmt.Sprintf("example.com/lib/img:v%d", nfin)
+		if !f.OK {
+			ref = "not a reference !!"
+		}
+		var img *images.Image
+		var err error
+		func() {
+			defer func() {
+				if p := recover(); p != nil {
+					err = fmt.Errorf("panic: %v", p)
+					res.Problems = append(res.Problems, fmt.Sprintf("finalize #%d panicked: %v", nfin, p))
+				}
+			}()
+			img, err = finalize(ctx, cs, ref, nil)
+		}()
+		if err != nil || img == nil {
+			fo.Err = true
+			if f.OK {
+				res.Problems = append(res.Problems, fmt.Sprintf("finalize #%d failed for a good reference: %v", nfin, err))
+			}
+			return fo
+		}
+		if img.Name != ref+"-esgztoc" {
+			res.Problems = append(res.Problems, "TOC image name "+img.Name)
+		}
+		mb, err := readBlob(ctx, cs, img.Target.Digest)
+		if err != nil {
+			res.Problems = append(res.Problems, "TOC image manifest not in the store: "+err.Error())
+			return fo
+		}
+		if int64(len(mb)) != img.Target.Size || sha(mb) != img.Target.Digest.String() {
+			res.Problems = append(res.Problems, "TOC image target does not describe the manifest blob")
+		}
+		var m ocispec.Manifest
+		if err := json.Unmarshal(mb, &m); err != nil {
+			res.Problems = append(res.Problems, "TOC image manifest does not parse")
+		}
+		for _, l := range m.Layers {
+			fo.Entries = append(fo.Entries, MEntry{Layer: l.Annotations["containerd.io/snapshot/stargz/layer.digest"], TOC: l.Digest.String(), Size: l.Size})
+			tb, err := readBlob(ctx, cs, l.Digest)
+			if err != nil {
+				res.Problems = append(res.Problems, "TOC image layer "+l.Digest.String()+" not in the store")
+			} else if int64(len(tb)) != l.Size || sha(tb) != l.Digest.String() {
+				res.Problems = append(res.Problems, "TOC image layer descriptor does not describe the TOC blob "+l.Digest.String())
+			}
+		}
+		sortEntries(fo.Entries)
+		return fo
+	}
+	// the program of the case: layers up to the position of each finalize call, the call, ..., the remaining layers
+	fins := c.Fins
+	if len(fins) == 0 && !c.NoFin {
+		fins = []Fin{{Upto: n, OK: true}}
+	}
+	if finalize == nil {
+		fins = nil
+	}
+	done := 0
+	for _, f := range fins {
+		if f.Upto > n {
+			f.Upto = n
+		}
+		if f.Upto < done {
+			f.Upto = done
+		}
+		runSeg(done, f.Upto)
+		done = f.Upto
+		fo := doFinalize(f)
+		res.Fins = append(res.Fins, fo)
+		if !fo.Err {
+			res.HasMfst = true
+			res.Manifest = fo.Entries
+			res.LastUpto = fo.Upto
+		}
+	}
+	runSeg(done, n)
 
 	for i := range c.Ops {
 		res.Layers[i].IngestAfter = refBytes(i)
@@ -845,44 +957,14 @@ func exec(c Case) Result {
 			res.Problems = append(res.Problems, fmt.Sprintf("layer %d: converted, but %d bytes remain ingested under its writer ref", i, res.Layers[i].IngestAfter))
 		}
 	}
-	// TOC image
+	// every external TOC blob of the store
 	type tocBlobInfo struct {
 		dg   string
 		b    []byte
 		json string
 	}
-	var tocBlobs []tocBlobInfo // every blob of the store that is an external TOC
+	var tocBlobs []tocBlobInfo
 	if finalize != nil {
-		img, err := finalize(ctx, cs, "example.com/lib/img:v1", nil)
-		if err != nil {
-			res.Problems = append(res.Problems, "finalize failed: "+err.Error())
-		} else {
-			res.HasMfst = true
-			if img.Name != "example.com/lib/img:v1-esgztoc" {
-				res.Problems = append(res.Problems, "TOC image name "+img.Name)
-			}
-			mb, err := readBlob(ctx, cs, img.Target.Digest)
-			if err != nil {
-				res.Problems = append(res.Problems, "TOC image manifest not in the store: "+err.Error())
-			} else {
-				if int64(len(mb)) != img.Target.Size || sha(mb) != img.Target.Digest.String() {
-					res.Problems = append(res.Problems, "TOC image target does not describe the manifest blob")
-				}
-				var m ocispec.Manifest
-				if err := json.Unmarshal(mb, &m); err != nil {
-					res.Problems = append(res.Problems, "TOC image manifest does not parse")
-				}
-				for _, l := range m.Layers {
-					res.Manifest = append(res.Manifest, MEntry{Layer: l.Annotations["containerd.io/snapshot/stargz/layer.digest"], TOC: l.Digest.String(), Size: l.Size})
-					tb, err := readBlob(ctx, cs, l.Digest)
-					if err != nil {
-						res.Problems = append(res.Problems, "TOC image layer "+l.Digest.String()+" not in the store")
-					} else if int64(len(tb)) != l.Size || sha(tb) != l.Digest.String() {
-						res.Problems = append(res.Problems, "TOC image layer descriptor does not describe the TOC blob "+l.Digest.String())
-					}
-				}
-			}
-		}
 		_ = cs.Walk(ctx, func(info content.Info) error {
 			if b, err := readBlob(ctx, cs, info.Digest); err == nil {
 				if js, ok := tocJSONOfTOCBlob(b); ok {
@@ -893,13 +975,6 @@ func exec(c Case) Result {
 		})
 		sort.Slice(tocBlobs, func(i, j int) bool { return tocBlobs[i].dg < tocBlobs[j].dg })
 	}
-	sort.Slice(res.Manifest, func(i, j int) bool {
-		a, b := res.Manifest[i], res.Manifest[j]
-		if a.TOC != b.TOC {
-			return a.TOC < b.TOC
-		}
-		return a.Layer < b.Layer
-	})
 
 	// observations + model-free oracle
 	prob := func(i int, f string, a ...any) {
@@ -981,7 +1056,20 @@ func exec(c Case) Result {
 		}
 		// clause: the TOC-digest annotation is the digest under which the blob mounts and verifies
 		var tocBlob []byte
-		if finalize != nil {
+		covered := res.HasMfst && (i < res.LastUpto || c.Ops[i].Pre == "retry")
+		if finalize != nil && !covered {
+			// no successful finalize call after this layer's conversion: take the TOC blob of the store that carries
+			// the annotated TOC (the TOC-image clauses do not apply)
+			for _, tb := range tocBlobs {
+				if tb.json == o.AnnTOC {
+					tocBlob = tb.b
+				}
+			}
+			if tocBlob == nil {
+				prob(i, "no external TOC blob with TOC digest %s was stored for converted layer %s", o.AnnTOC, o.Digest)
+			}
+		}
+		if finalize != nil && covered {
 			// as fetcher.go does: first manifest layer annotated with this layer digest
 			found := ""
 			for _, m := range res.Manifest {
@@ -1012,7 +1100,7 @@ func exec(c Case) Result {
 		actual, err := openAndVerify(c.Kind, blob, pay, tocBlob, o.AnnTOC)
 		o.TOCDg = actual
 		if err != nil {
-			if finalize != nil {
+			if finalize != nil && covered {
 				prob(i, "TOC image maps layer %s to TOC blob %s which does not verify it under annotation %s: %v", o.Digest, o.TOCBlob, o.AnnTOC, err)
 			} else {
 				prob(i, "blob does not mount and verify under the TOC-digest annotation %s: %v", o.AnnTOC, err)
@@ -1042,25 +1130,54 @@ func exec(c Case) Result {
 			}
 		}
 	}
-	// clause: the TOC image has nothing but entries of converted layers, each exactly once
-	if finalize != nil && res.HasMfst {
-		seen := map[string]int{}
-		for _, m := range res.Manifest {
-			seen[m.Layer]++
+	// clause, for EVERY successful finalize call: the image maps every layer converted so far to the TOC that verifies it
+	// (same TOC digest as the layer's annotation, which openAndVerify above checked against the blob), has exactly one entry
+	// per layer digest and nothing but entries of layers converted so far
+	for fi, fo := range res.Fins {
+		if fo.Err {
+			continue // an error for a good reference was reported above
 		}
-		conv := map[string]bool{}
-		for _, o := range res.Layers {
-			if o.Res == "ok" {
-				conv[o.Digest] = true
+		if !fo.OK {
+			res.Problems = append(res.Problems, fmt.Sprintf("finalize #%d returned an image for an unparsable reference", fi+1))
+		}
+		seen := map[string]int{}
+		tocOf := map[string]string{}
+		for _, m := range fo.Entries {
+			seen[m.Layer]++
+			tocOf[m.Layer] = m.TOC
+		}
+		allowed := map[string]bool{}
+		for i, o := range res.Layers {
+			if o.Res != "ok" {
+				continue
+			}
+			if i < fo.Upto || c.Ops[i].Pre == "retry" {
+				allowed[o.Digest] = true
+			}
+			if i >= fo.Upto {
+				continue
+			}
+			tocd, ok := tocOf[o.Digest]
+			if !ok {
+				res.Problems = append(res.Problems, fmt.Sprintf("finalize #%d (after %d layers): TOC image with %d entries has no entry for converted layer %d %s", fi+1, fo.Upto, len(fo.Entries), i, o.Digest))
+				continue
+			}
+			js := ""
+			for _, tb := range tocBlobs {
+				if tb.dg == tocd {
+					js = tb.json
+				}
+			}
+			if js == "" || js != o.AnnTOC || (o.TOCDg != "" && js != o.TOCDg) {
+				res.Problems = append(res.Problems, fmt.Sprintf("finalize #%d: TOC image maps layer %d %s to %s which is not the TOC that verifies it (TOC digest %q, annotation %s)", fi+1, i, o.Digest, tocd, js, o.AnnTOC))
 			}
 		}
 		for k, v := range seen {
 			if v != 1 {
-				res.Problems = append(res.Problems, fmt.Sprintf("TOC image has %d entries for layer %s", v, k))
+				res.Problems = append(res.Problems, fmt.Sprintf("finalize #%d: TOC image has %d entries for layer %s", fi+1, v, k))
 			}
-			if !conv[k] {
-				// entries of conversions that failed after the blob was written are allowed only if none exists
-				res.Problems = append(res.Problems, fmt.Sprintf("TOC image has an entry for %s which no returned descriptor names", k))
+			if !allowed[k] {
+				res.Problems = append(res.Problems, fmt.Sprintf("finalize #%d: TOC image has an entry for %s which no descriptor returned so far names", fi+1, k))
 			}
 		}
 	}
@@ -1099,8 +1216,10 @@ func coqCase(c Case, r Result) string {
 	for _, o := range r.Layers {
 		all = append(all, o.SrcDigest, o.SrcLabel, o.SrcDiffID, o.Digest, o.AnnTOC, o.Label, o.HBlob, o.HPay, o.TOCDg, o.TOCBlob)
 	}
-	for _, m := range r.Manifest {
-		all = append(all, m.Layer, m.TOC)
+	for _, f := range r.Fins {
+		for _, m := range f.Entries {
+			all = append(all, m.Layer, m.TOC)
+		}
 	}
 	in := newInterner(all)
 	var ls []string
@@ -1128,14 +1247,19 @@ func coqCase(c Case, r Result) string {
 		ls = append(ls, fmt.Sprintf("(mkLayer %s %s %s %s %s %s %s %s %d%%N %d%%N)", mtCoq[o.SrcMT], in.id(o.SrcDigest), in.id(o.SrcLabel), src,
 			hx.CoqBool(c.Ops[i].Pre == "retry"), hx.CoqBool(ok), blob, obs, o.Leftover, o.IngestAfter))
 	}
-	var ms []string
-	for _, m := range r.Manifest {
-		ms = append(ms, fmt.Sprintf("(%s, (%s, %d%%N))", in.id(m.Layer), in.id(m.TOC), m.Size))
+	var fs []string
+	for _, f := range r.Fins {
+		obs := "None"
+		if !f.Err {
+			var ms []string
+			for _, m := range f.Entries {
+				ms = append(ms, fmt.Sprintf("(%s, (%s, %d%%N))", in.id(m.Layer), in.id(m.TOC), m.Size))
+			}
+			obs = "(Some " + hx.CoqList(ms) + ")"
+		}
+		fs = append(fs, fmt.Sprintf("(%d, (%s, %s))", f.Upto, hx.CoqBool(f.OK), obs))
 	}
-	mf := "None"
-	if r.HasMfst {
-		mf = "(Some " + hx.CoqList(ms) + ")"
-	}
+	mf := hx.CoqList(fs)
 	return fmt.Sprintf("(mkCase %s %s %s)", kindCoq[c.Kind], hx.CoqList(ls), mf)
 }
 
@@ -1190,6 +1314,28 @@ func gen(r *hx.Rng) Case {
 			}
 		}
 		c.Ops = append(c.Ops, l)
+	}
+	if c.Kind == "ext" || c.Kind == "extll" {
+		n := len(c.Ops)
+		switch r.Pick(5, 1, 3, 3) {
+		case 1:
+			c.NoFin = true
+		case 2: // a failed call retried, possibly a further reference afterwards
+			c.Fins = []Fin{{Upto: n, OK: false}, {Upto: n, OK: true}}
+			if r.Bool() {
+				c.Fins = append(c.Fins, Fin{Upto: n, OK: r.Chance(3, 4)})
+			}
+		case 3: // calls interleaved with further conversions
+			k := r.Range(1, 3)
+			up := 0
+			for j := 0; j < k; j++ {
+				up = r.Range(up, n)
+				c.Fins = append(c.Fins, Fin{Upto: up, OK: r.Chance(3, 4)})
+			}
+			if r.Chance(2, 3) {
+				c.Fins = append(c.Fins, Fin{Upto: n, OK: true})
+			}
+		}
 	}
 	if raceBuild {
 		c.Parallel = true
@@ -1252,6 +1398,33 @@ func main() {
 		if r.Parked {
 			ctx.Count("gate.parked")
 		}
+		if c.Kind == "ext" || c.Kind == "extll" {
+			nokfin, prevUp := 0, -1
+			for _, f := range r.Fins {
+				if f.Err {
+					ctx.Count("fin.fail")
+					continue
+				}
+				ctx.Count("fin.ok")
+				nokfin++
+				if nokfin > 1 {
+					ctx.Count("fin.ok.repeated")
+				}
+				if prevUp >= 0 && f.Upto > prevUp {
+					ctx.Count("fin.ok.after.more.layers")
+				}
+				if nokfin > 0 && len(f.Entries) == 0 && f.Upto > 0 {
+					ctx.Count("fin.ok.empty.image")
+				}
+				prevUp = f.Upto
+			}
+			if len(r.Fins) == 0 {
+				ctx.Count("fin.none")
+			}
+			if len(r.Fins) > 1 {
+				ctx.Count("fin.multi")
+			}
+		}
 		ctx.CountN("pre.interrupt.left", r.Leftover)
 		nok := 0
 		dig := map[string]int{}
@@ -1297,6 +1470,15 @@ func main() {
 		// forced schedule: layer A generates its TOC, parks before storing it; another layer converts completely; A stores
 		{Kind: "ext", API: "common", Chunk: 4096, Parallel: true, Gate: true, Ops: []Layer{{Seed: 20, NFiles: 3, MaxSz: 900, Comp: "gzip", Fam: "oci"}, {Seed: 21, NFiles: 4, MaxSz: 5000, Comp: "none", Fam: "oci"}, {Seed: 22, NFiles: 2, MaxSz: 900, Comp: "gzip", Fam: "docker"}}},
 		{Kind: "extll", API: "common", Chunk: 4096, Parallel: true, Gate: true, Ops: []Layer{{Seed: 23, NFiles: 3, MaxSz: 900, Comp: "gzip", Fam: "oci"}, {Seed: 24, NFiles: 4, MaxSz: 5000, Comp: "none", Fam: "oci"}}},
+		// finalize fails (unparsable reference), is retried, and is called again for a further reference: each successful call maps all layers
+		{Kind: "ext", API: "common", Chunk: 4096, Parallel: true, Fins: []Fin{{3, false}, {3, true}, {3, true}}, Ops: []Layer{{Seed: 40, NFiles: 3, MaxSz: 900, Comp: "gzip", Fam: "oci"}, {Seed: 41, NFiles: 2, MaxSz: 900, Comp: "none", Fam: "oci"}, {Seed: 42, NFiles: 2, MaxSz: 900, Comp: "gzip", Fam: "docker"}}},
+		{Kind: "extll", API: "common", Chunk: 4096, Parallel: true, Fins: []Fin{{2, false}, {2, true}, {2, true}}, Ops: []Layer{{Seed: 43, NFiles: 3, MaxSz: 900, Comp: "gzip", Fam: "oci"}, {Seed: 44, NFiles: 2, MaxSz: 900, Comp: "none", Fam: "oci"}}},
+		// finalize with no layer yet, after the first layer, then further layers, then all: later images contain the earlier layers too
+		{Kind: "ext", API: "perlayer", Fins: []Fin{{0, true}, {1, true}, {3, true}}, Ops: []Layer{{Seed: 45, NFiles: 3, MaxSz: 900, Comp: "gzip", Fam: "oci"}, {Seed: 46, NFiles: 2, MaxSz: 900, Comp: "none", Fam: "oci"}, {Seed: 47, NFiles: 2, MaxSz: 900, Comp: "gzip", Fam: "ocind"}}},
+		{Kind: "extll", API: "common", Fins: []Fin{{1, true}, {1, false}, {2, true}}, Ops: []Layer{{Seed: 48, NFiles: 3, MaxSz: 900, Comp: "gzip", Fam: "oci"}, {Seed: 49, NFiles: 2, MaxSz: 900, Comp: "none", Fam: "oci"}, {Seed: 50, NFiles: 1, MaxSz: 900, Comp: "gzip", Fam: "oci"}}},
+		// finalize never called / only a failing call
+		{Kind: "ext", API: "common", NoFin: true, Ops: []Layer{{Seed: 51, NFiles: 2, MaxSz: 900, Comp: "gzip", Fam: "oci"}}},
+		{Kind: "ext", API: "common", Fins: []Fin{{1, false}}, Ops: []Layer{{Seed: 52, NFiles: 2, MaxSz: 900, Comp: "gzip", Fam: "oci"}}},
 		// a conversion with other options died while streaming; the retry reuses the writer ref
 		{Kind: "esgz", API: "common", Level: 9, Chunk: 1000, Ops: []Layer{{Seed: 25, NFiles: 4, MaxSz: 5000, Comp: "gzip", Fam: "oci", Pre: "interrupt"}, {Seed: 26, NFiles: 3, MaxSz: 5000, Comp: "none", Fam: "docker", Pre: "interrupt"}}},
 		{Kind: "extll", API: "common", Level: 9, Chunk: 1000, Parallel: true, Ops: []Layer{{Seed: 27, NFiles: 4, MaxSz: 5000, Comp: "gzip", Fam: "oci", Pre: "interrupt"}, {Seed: 28, NFiles: 3, MaxSz: 5000, Comp: "none", Fam: "oci", Pre: "interrupt"}}},
